@@ -53,14 +53,26 @@ def run(ctx):
                        'operation (every overload and every compound assignment, the derived operations, upward re-scaling) equal to its algebraic '
                        'specification for operands of ARBITRARY scale and digit representation -- the proofs are parametric in the operands\' scales and '
                        'never assume a canonical form, and every zero/one shortcut path is verified under the VALUE fact (x := 0, x := 1) whatever the '
-                       'scale. BY-VALUE: is_zero/is_one used by the shortcuts are the by-value predicates. NOT decided: comparisons and hashes taken '
-                       'along the way (C02/C03\'s undecided parts), normalized()\'s loop.')
+                       'scale. BY-VALUE: is_zero/is_one used by the shortcuts are the by-value predicates. Comparisons, hashes and normalisation taken along the way: the ORDER-TABLE / SCAN-GAP / HASH-* / NORMAL-FORM necessary conditions of C02, C03 and C18 are re-established here. NOT decided: the digit-level comparison arithmetic '
+                       'and the hashed bytes themselves.')
     F = ctx.facts('default', 'rel')
     n, arms, sc = exact.operator_family(rep, F, ALL)
     nd = exact.derived_ops(rep, F)
     nr = exact.rescale_primitives(rep, F, scale_only=False)
     nb = by_value_predicates(rep, F)
     n_assign = len([o for o in rep.obs if 'Assign<' in o['key'] or 'Assign for' in o['key']])
+    # "comparisons and hashes taken along the way agree with the exact values", "normalizing": the structural
+    # necessary conditions established for C02 / C03 / C18 are obligations of this property as well
+    from rules import ordertable, scangap, normalform
+    from props import common, c03
+    nt = ordertable.cmp_table(rep, F) + ordertable.checked_diff_contract(rep, F) + ordertable.eq_table(rep, F)
+    ng = scangap.check(rep, F, F.reach(common.cmp_entries(F)))
+    nh = c03.hashed_data(rep, F) + c03.zero_hashes_alike(rep, F) + c03.feeding_shape(rep, F)
+    nn = normalform.check(rep, F)
+    rep.floor('comparison table cells', nt, 20)
+    rep.floor('digit loops advanced with next()', ng, 2)
+    rep.floor('hash agreement rules', nh, 4)
+    rep.floor('normalized() table rows', nn, 2)
     rep.floor('exact operator functions', n, 380)
     rep.floor('compound-assignment functions', n_assign, 60)
     rep.floor('shortcut paths verified under value facts', sc, 60)
